@@ -711,7 +711,7 @@ def check_C16(tier, seed):
     st = pct_selftest()
     if st:
         res.add_tie_break("the Python percent-decoder disagrees with Python's strict UTF-8 codec", at=st)
-    n_rand = 6000 if tier == "quick" else 250000
+    n_rand = 6000 if tier == "quick" else 150000
     groups = [("systematic", systematic()), ("utf8-sweep", utf8_sweep(tier, rng)),
               ("random", [gen_stream(rng) for _ in range(n_rand)]),
               ("random-clean", [gen_stream(rng, 0.0, 0.0) for _ in range(n_rand // 3)])]
